@@ -723,6 +723,12 @@ pub fn run_slice_history<A: Atomicity>(rng: &mut Rng, nops: usize, st: &mut Stat
                 st.count("UTF8:op:String conversions");
             },
             _ => {
+                // reach "owned but short" states: shrink an owned buffer below the inline limit
+                if bm.len() > 12 && rng.chance(1, 3) {
+                    let keep = rng.below(8);
+                    b.pop_back((bm.len() - keep) as u32);
+                    bm.truncate(keep);
+                }
                 if bm.len() > 200 {
                     b.clear();
                     bm.clear();
